@@ -13,6 +13,9 @@ _G = {}
 def resolve(path):
     """'athlib.x' -> attribute of the package; 'athlib.mod:fn' -> attribute fn of the real module object (names can be shadowed by functions)"""
     athlib = common.bind_repo()
+    if path.startswith('verif:'):
+        from vlib import callhelpers
+        return getattr(callhelpers, path[6:])
     if ':' in path:
         m, f = path.split(':')
         o = common.mod(m)
@@ -192,7 +195,7 @@ def part_groups(rep, groups, label):
 # replay of the violations of the call-order, cross-API and interpreter-mode passes (their cases are lists of repr()'d calls)
 
 def _is_call(h):
-    return isinstance(h, list) and len(h) == 3 and isinstance(h[0], str) and h[0].startswith("'athlib")
+    return isinstance(h, list) and len(h) == 3 and isinstance(h[0], str) and h[0].startswith(("'athlib", "'verif:"))
 
 
 def is_generic(rec):
